@@ -200,14 +200,15 @@ structure BucketParams where
   deriving Repr, DecidableEq
 
 /-- `lens[i]` = `dataset[i][0].size(0)`. `nb ≥ 1`, `B ≥ 1` are guaranteed by the parameter
-bounds (`nb = 0` would divide by zero before anything else). -/
+bounds; called directly with `nb = 0` the code divides by zero in `len(dataset) // num_buckets` —
+AFTER the empty-data-set return, so `([], 0)` gives two empty maps, not an error. -/
 def bucketParams (lens : List Nat) (nb B : Nat) (dynamic : Bool) : Except Err BucketParams :=
-  if nb = 0 then .error .zerodiv else
   let N := lens.length
-  let epb := N / nb
-  let sorted := isort lens
   if N = 0 then .ok ⟨[], [], []⟩   -- `if len(dataset) == 0: return dict(), dict()`
+  else if nb = 0 then .error .zerodiv   -- `elem_per_bucket = len(dataset) // num_buckets`
   else
+    let epb := N / nb
+    let sorted := isort lens
     -- len_idx[(n + 1) * epb - 1]; the index is -1 (= last) when epb = 0
     let b0 := (List.range nb).map (fun n =>
       if epb = 0 then sorted.getD (N - 1) 0 else sorted.getD ((n + 1) * epb - 1) 0)
